@@ -256,7 +256,7 @@ def locate_impl(src, type_name, trait=None):
             continue
         if (trait is None) != (tr is None):
             continue
-        if trait is not None and trait not in tr:
+        if trait is not None and trait.replace(' ', '') not in tr.replace(' ', ''):
             continue
         hits.append((si, op))
     if len(hits) != 1:
@@ -827,13 +827,22 @@ def extract_unit(spec_path, repo, out_path, meta_path=None, canary=None):
             text = RULES[r](text, log)
         return text
 
-    def emit_fn(src, fnpath, s_start, s_close, relfile, indent_under_impl=False):
+    def emit_fn(src, fnpath, s_start, s_close, relfile, indent_under_impl=False, rename=None):
         a = src.tok(s_start)[2]
         b = src.tok(s_close)[3]
         raw = src.text[a:b]
         line = src.line_of(a)
         nlog = len(log)
         text = rewrite(raw)
+        if rename:
+            # R6b: two trait impls of one type define a method of the same name (From<A>, From<B>);
+            # as inherent methods they need distinct names.  Only the name in the signature changes.
+            old_name, new_name = rename
+            text, n = re.subn(r'\bfn %s\b' % re.escape(old_name), 'fn ' + new_name, text, count=1)
+            if n != 1:
+                raise LostAnchor('rename %s -> %s: signature not found' % rename)
+            log.append({'rule': 'R6b', 'before': 'fn ' + old_name, 'after': 'fn ' + new_name})
+            fnpath = fnpath.rsplit('::', 1)[0] + '::' + new_name
         for e in log[nlog:]:
             e.setdefault('fn', fnpath)
             e.setdefault('file', relfile)
@@ -973,7 +982,8 @@ def extract_unit(spec_path, repo, out_path, meta_path=None, canary=None):
             chunks.append((rewrite(hdr) + '\n', (rel, src.line_of(src.tok(i_kw)[2]))))
             for mname in item['methods']:
                 s_start, _, _, s_close = locate(src, 'fn', mname, i_open, i_close)
-                emit_fn(src, '%s::%s' % (ty, mname), s_start, s_close, rel)
+                rn = item.get('rename', {}).get(mname)
+                emit_fn(src, '%s::%s' % (ty, mname), s_start, s_close, rel, rename=(mname, rn) if rn else None)
             chunks.append(('}\n\n', None))
         elif kind == 'closure_arg':
             # the closure passed as the argument of a call located by a regex inside a function,
